@@ -34,8 +34,9 @@ Init == /\ A!Init /\ B!Init
         /\ cfgA.events # cfgB.events            \* the two streams really differ after the cut
 
 \* lock-step: the same call on both sides
-Next == \/ (A!Reset /\ B!Reset)
-        \/ (A!Step /\ B!Step)
+Next == /\ UNCHANGED cut
+        /\ \/ (A!Reset /\ B!Reset)
+           \/ (A!Step /\ B!Step)
 Spec == Init /\ [][Next]_vars
 
 -----------------------------------------------------------------------------
